@@ -218,15 +218,44 @@ def r3_filters_narrow(run):
               fi.qual + "::no-value-left=>deleted",
               "an attribute with no matching value is deleted",
               "attributes whose values all fail the patterns are kept", fi.loc())
-    lk = [s for s in walk_no_nested(fi.node) if isinstance(s, ast.Assign) and
-          unparse(s.value) == "attribute_restrictions[_attr]"]
-    lo = [s for s in walk_no_nested(fi.node) if isinstance(s, ast.Assign) and
-          isinstance(s.targets[0], ast.Name) and s.targets[0].id == "_attr"]
-    run.check(len(lk) == 1 and len(lo) == 1 and
-              unparse(lo[0].value) == "attr.lower()", "R3",
+    run.check(cfg.computes("attribute_restrictions[attr.lower()]"), "R3",
               fi.qual + "::lookup-key", "restriction looked up by the "
               "lower-cased attribute name", "restriction lookup changed",
               fi.loc(), nontrivial=False)
+    # every round of the loop over the identity ends in a decision: the
+    # attribute is deleted, or its values are REPLACED by the matching ones,
+    # or it has no value restriction at all (`_rests is None`)
+    import builtins
+    for nd in stores:
+        names = {x.id for x in ast.walk(ast.parse(
+            cfg.itext(nd.ast.value, nd.id), mode="eval"))
+            if isinstance(x, ast.Name) and not hasattr(builtins, x.id)}
+        run.check(names == {"rvals"}, "R3",
+                  fi.qual + "::" + norm_text(nd.ast) + "::only-matching",
+                  "what is stored is built from the matching values only",
+                  "the stored value is built from %s" % sorted(names),
+                  fi.loc(nd.ast))
+    iters = [n for n in cfg.nodes if n.kind == "iter" and
+             "ava" in unparse(n.ast.iter)]
+    free = [n.id for n in cfg.nodes if n.kind == "true" and
+            (canon_q("_rests is None") in
+             {(t, p) for t, p in cfg.branch_atoms(n.id)})]
+    decided = {n.id for n in stores} | {n.id for n in dels} | set(free) | \
+        {n.id for n in cfg.nodes if n.kind == "exc"}
+    for it in iters:
+        hdr = [n.id for n in cfg.nodes if n.kind == "for" and n.ast is it.ast]
+        ends = hdr + [cfg.return_exit]
+        wit = None
+        for e in ends:
+            wit = wit or cfg.path(it.id, e, decided)
+        run.check(wit is None, "R3", fi.qual + "::every-round-decides",
+                  "a restricted attribute never leaves the loop with its "
+                  "original values",
+                  "a round of the filter loop can end without deleting the "
+                  "attribute or replacing its values by the matching ones: "
+                  "values no pattern matched are released", fi.loc(it.ast),
+                  witness=cfg.describe_path(wit) if wit else None)
+    run.floor("R3", "filter loops over the identity", len(iters), 1)
     # ---- _filter_values
     fv = m.func("assertion._filter_values")
     vcfg = cfg_of(fv, m)
@@ -428,6 +457,10 @@ def r5_error_branch(run):
               "handler no longer returns an error response", h.loc())
 
 
+def canon_q(text, pol=True):
+    return Q(text, pol)
+
+
 def r6_entity_category_tuples(run):
     run.rule("R6", "entity categories: the attributes of a composite (tuple) "
              "category key are released only if EVERY member category is among "
@@ -479,6 +512,14 @@ def r6_entity_category_tuples(run):
         rnames = {cfg.nodes[r].ast.targets[0].id for r in resets}
         uses = [n.id for n in cfg.by_kind("foriter")
                 if isinstance(n.ast.iter, ast.Name) and n.ast.iter.id in rnames]
+        # ... or any other statement that reads the list (bulk update etc.)
+        uses += [n.id for n in cfg.by_kind("stmt")
+                 if n.id not in resets and not (
+                     isinstance(n.ast, ast.Assign) and
+                     isinstance(n.ast.targets[0], ast.Name) and
+                     n.ast.targets[0].id in rnames) and
+                 any(isinstance(x, ast.Name) and x.id in rnames and
+                     isinstance(x.ctx, ast.Load) for x in ast.walk(n.ast))]
         key = "%s::for %s in %s" % (fi.qual, v, unparse(lp.ast.iter))
         if not fails or not uses:
             run.violated("R6", key, "the members of a tuple key are no longer "
@@ -562,3 +603,6 @@ def check(run):
     r5_error_branch(run)
     r6_entity_category_tuples(run)
     r7_declared_requirements_complete(run)
+    from ..common_rules import shared_state_rule
+    shared_state_rule(run, "R8", {"assertion", "attribute_converter"},
+                      "filtering one identity")
